@@ -10,6 +10,11 @@ A case is a plain JSON-able dict (floats as Python floats: json round-trips them
   parguess  start values for non-polynomial models (within ~10 % of the generating values)
   ptrue     generating parameters;  noise_free: y is exactly the model at ptrue
   xs        evaluation points for fit_function
+  sx        how the x-uncertainties were chosen: none | common | point | zeros (per point, some
+            exactly 0) | one (exactly one point has one) | edit (a common value on a
+            MeasurementArray / XYDataSet, one element set to 0 afterwards: `xerr_edit`)
+  scale     [xs, ys]: the whole problem was rescaled (x by xs, y by ys, uncertainties, parameters,
+            ranges accordingly) from a problem of order one
 """
 import math
 import warnings
@@ -17,7 +22,10 @@ import warnings
 from common import bits
 
 PRESET_POLY = ("linear", "quadratic", "polynomial")
-FORMS = ("lists", "arrays", "marrays", "xyds", "xyds.fit", "kwargs", "enum")
+FORMS = ("lists", "arrays", "marrays", "xyds", "xyds.fit", "kwargs", "enum", "xyds.marrays", "derived")
+# xyds.marrays: XYDataSet built from two MeasurementArrays that carry the uncertainties themselves
+# (no xerr=/yerr= keyword); derived: y is an array of DerivedValues (a MeasurementArray + 0, or half
+# the values times 2 -- both exact in binary floating point)
 
 
 def _c(v):
@@ -80,13 +88,39 @@ def distinct_xs(rng, n, lo, hi):
     return xs
 
 
+ZERO_SX = ("zeros", "one", "edit")     # per-point x-uncertainties some of which are exactly 0
+
+
 def err_pattern(rng, kind, n, scale):
     if kind == "none":
         return None
     if kind == "common":
         return round(scale * rng.uniform(0.5, 2.0), 6)
+    if kind == "one":
+        # exactly one point carries an x-uncertainty (a large one, so that it matters)
+        e = [0.0] * n
+        e[rng.randrange(n)] = round(scale * rng.uniform(2.0, 6.0), 6)
+        return e
+    if kind == "edit":
+        # a common value, one element exactly known (set to 0 after construction where the form
+        # allows it, see call_fit)
+        e = [round(scale * rng.uniform(1.0, 3.0), 6)] * n
+        e[rng.randrange(n)] = 0.0
+        return e
     # per point, spread up to x20
-    return [round(scale * 20 ** rng.uniform(-0.5, 0.5), 6) for _ in range(n)]
+    e = [round(scale * 20 ** rng.uniform(-0.5, 0.5), 6) for _ in range(n)]
+    if kind == "yzeros":
+        # sigma_y: a few ordinates exactly known (C07 only: chi-squared skips them)
+        for i in rng.sample(range(n), rng.randint(1, 3)):
+            e[i] = 0.0
+    if kind == "zeros":
+        # some (at least one, not all but two) of the abscissae are exactly known
+        k = rng.randint(1, max(1, n - 2))
+        if rng.random() < 0.5:
+            k = min(k, 3)
+        for i in rng.sample(range(n), k):
+            e[i] = 0.0
+    return e
 
 
 def as_list(e, n):
@@ -98,7 +132,7 @@ def as_list(e, n):
 
 
 def gen_case(rng, family=None, noise_free=None, form=None, want_range=None, degree=None,
-             sx=None, sy=None):
+             sx=None, sy=None, units=None):
     family = family or rng.choice(["linear", "quadratic", "polynomial", "polynomial", "exponential",
                                    "gaussian", "custom:sine", "custom:growth", "custom:lorentz"])
     case = {"model": family, "form": form or rng.choice(FORMS)}
@@ -117,7 +151,7 @@ def gen_case(rng, family=None, noise_free=None, form=None, want_range=None, degr
         ys0 = [f(x, *ptrue) for x in xs]
         scale = 0.02 * (max(abs(v) for v in ys0) + 0.1)
         skind = sy or rng.choice(["none", "common", "point", "point"])
-        xkind = sx or rng.choice(["none", "none", "common"])    # ignored by polynomial fits
+        xkind = sx or rng.choice(["none", "none", "common", "zeros"])    # ignored by polynomial fits
         noise_free = False
     else:
         n = rng.randint(8, 24)
@@ -143,7 +177,13 @@ def gen_case(rng, family=None, noise_free=None, form=None, want_range=None, degr
         ys0 = [f(x, *ptrue) for x in xs]
         scale = 0.01 * (max(abs(v) for v in ys0) + 0.05)
         skind = sy or rng.choice(["none", "common", "point", "point"])
-        xkind = sx or rng.choice(["none", "common", "point", "point"])
+        xkind = sx or rng.choice(["none", "common", "point", "point", "zeros", "one", "edit"])
+        if skind == "yzeros":
+            # only well-posed when every point still has s_i > 0: all sigma_x positive
+            xkind = sx if sx in ("common", "point") else rng.choice(["common", "point"])
+        if xkind in ZERO_SX and skind == "none":
+            # a point with sigma_x = 0 and no sigma_y would have s_i = 0: not a least-squares problem
+            skind = rng.choice(["common", "point"])
         if noise_free is None:
             noise_free = rng.random() < 0.25
         case["parguess"] = [v * (1 + rng.uniform(-0.1, 0.1)) + rng.uniform(-0.02, 0.02)
@@ -190,6 +230,76 @@ def gen_case(rng, family=None, noise_free=None, form=None, want_range=None, degr
                 break
     a, b = min(xs), max(xs)
     case["xs"] = [round(rng.uniform(a - 0.1 * (b - a), b + 0.1 * (b - a)), 4) for _ in range(4)]
+    if xkind == "edit":
+        i0 = xerr.index(0.0)
+        case["xerr_edit"] = {"common": max(xerr), "zero_at": i0,
+                             "how": rng.choice(["error=", "item=", "tuple="])}
+    case["pscale"] = [1.0] * len(ptrue)
+    if units is not None and (units[0] != 1.0 or units[1] != 1.0):
+        rescale(case, float(units[0]), float(units[1]))
+    return case
+
+
+SCALES = (1e-12, 1e-6, 1e-3, 1.0, 1e3, 1e6, 1e12)
+
+
+def gen_centred(rng, units=None):
+    """straight-line fit on abscissae (almost) symmetric about 0: slope and intercept are (almost)
+    uncorrelated -- correlation -mean(x)/rms(x) = 1e-7 ... 1e-2 in magnitude, small but not 0"""
+    n = rng.randint(3, 9) * 2
+    half = [round((i + rng.uniform(0.2, 0.8)) * 0.5, 3) for i in range(n // 2)]
+    rms = math.sqrt(sum(v * v for v in half) / len(half))
+    shift = rng.choice([1.0, -1.0]) * rms * 10 ** rng.uniform(-7, -2)
+    xs = sorted([-v + shift for v in half] + [v + shift for v in half])
+    ptrue = [round(rng.uniform(-2, 2), 3) or 0.5, round(rng.uniform(-2, 2), 3)]
+    skind = rng.choice(["none", "common"])
+    yerr = err_pattern(rng, skind, n, 0.05)
+    ys = [round(ptrue[0] * x + ptrue[1] + rng.gauss(0, 1) * 0.05, 6) for x in xs]
+    case = {"model": "linear", "degree": 1, "form": rng.choice(FORMS), "x": xs, "y": ys,
+            "xerr": None, "yerr": yerr, "ptrue": ptrue, "noise_free": False, "sx": "none",
+            "sy": skind, "xrange": None, "pscale": [1.0, 1.0],
+            "xs": [round(rng.uniform(-1, 1) * 2 * rms, 4) for _ in range(4)]}
+    if units is not None and (units[0] != 1.0 or units[1] != 1.0):
+        rescale(case, float(units[0]), float(units[1]))
+    return case
+
+
+def param_scales(case, xs, ys):
+    """factor by which each parameter changes when x is multiplied by xs and y by ys"""
+    m = case["model"]
+    if m in PRESET_POLY:
+        d = case["degree"]
+        return [ys / xs ** (d - k) for k in range(d + 1)]
+    return {"exponential": [ys, 1 / xs], "gaussian": [ys * xs, xs, xs],
+            "custom:sine": [ys, 1 / xs], "custom:growth": [ys, 1 / xs],
+            "custom:lorentz": [ys, 1 / xs ** 2]}[m]
+
+
+def rescale(case, xs, ys):
+    """the same fit problem in other units: x -> xs*x, y -> ys*y (small-unit / large-unit data);
+    uncertainties, generating parameters, guesses, range and evaluation points follow"""
+    def mul(v, f):
+        if v is None:
+            return None
+        if isinstance(v, (int, float)):
+            return v * f
+        return [e * f for e in v]
+    ps = param_scales(case, xs, ys)
+    case["x"], case["xerr"] = mul(case["x"], xs), mul(case["xerr"], xs)
+    case["y"], case["yerr"] = mul(case["y"], ys), mul(case["yerr"], ys)
+    case["xs"] = mul(case["xs"], xs)
+    case["xrange"] = mul(case["xrange"], xs)
+    case["ptrue"] = [p * f for p, f in zip(case["ptrue"], ps)]
+    if case.get("parguess") is not None:
+        case["parguess"] = [p * f for p, f in zip(case["parguess"], ps)]
+    if case.get("xerr_edit"):
+        case["xerr_edit"]["common"] = max(case["xerr"])
+    case["pscale"] = [abs(f) for f in ps]
+    case["scale"] = [xs, ys]
+    if case["noise_free"]:
+        # exact data must be exact for the scaled parameters too
+        f = ref_fn(case["model"])
+        case["y"] = [f(x, *case["ptrue"]) for x in case["x"]]
     return case
 
 
@@ -235,7 +345,7 @@ def call_fit(q, case, drop_xerr=False, use_range=True):
     if case["model"] == "polynomial":
         kw["degrees"] = case["degree"]
     if case.get("parguess") is not None:
-        kw["parguess"] = list(case["parguess"])
+        kw["parguess"] = list(case["parguess"]) if len(x) % 3 else tuple(case["parguess"])
     model = model_arg(q, case)
     form = case["form"]
     ek = {}
@@ -248,9 +358,45 @@ def call_fit(q, case, drop_xerr=False, use_range=True):
     if form == "arrays":
         ek = {k: (np.array(v) if isinstance(v, list) else v) for k, v in ek.items()}
         return q.fit(np.array(x), np.array(y), model, **ek, **kw)
+    ed = None if drop_xerr else case.get("xerr_edit")
+
+    def edit(arr):
+        # a common x-uncertainty, then one abscissa declared exactly known
+        i = ed["zero_at"]
+        if ed["how"] == "error=":
+            arr[i].error = 0.0
+        elif ed["how"] == "item=":
+            arr[i] = q.Measurement(x[i], 0.0)
+        else:
+            arr[i] = (x[i], 0.0)
+        return arr
     if form == "marrays":
-        xa = q.MeasurementArray(x, xerr) if xerr is not None else q.MeasurementArray(x)
+        if ed:
+            xa = edit(q.MeasurementArray(x, ed["common"]))
+        else:
+            xa = q.MeasurementArray(x, xerr) if xerr is not None else q.MeasurementArray(x)
         ya = q.MeasurementArray(y, yerr) if yerr is not None else q.MeasurementArray(y)
+        return q.fit(xa, ya, model, **kw)
+    if form in ("xyds", "xyds.fit") and ed:
+        ds = q.XYDataSet(x, y, **dict(ek, xerr=ed["common"]))
+        edit(ds.xdata)
+        return q.fit(ds, model, **kw) if form == "xyds" else ds.fit(model, **kw)
+    if form in ("xyds.marrays", "derived"):
+        if ed:
+            xa = edit(q.MeasurementArray(x, ed["common"]))
+        else:
+            xa = q.MeasurementArray(x, xerr) if xerr is not None else q.MeasurementArray(x)
+        if form == "xyds.marrays":
+            ya = q.MeasurementArray(y, yerr) if yerr is not None else q.MeasurementArray(y)
+            ds = q.XYDataSet(xa, ya)
+            return q.fit(ds, model, **kw) if len(x) % 2 else ds.fit(model, **kw)
+        if len(x) % 2:
+            ya = (q.MeasurementArray(y, yerr) if yerr is not None else q.MeasurementArray(y)) + 0
+        else:
+            half = [v / 2 for v in y]
+            herr = None if yerr is None else (
+                yerr / 2 if isinstance(yerr, (int, float)) else [v / 2 for v in yerr])
+            ya = (q.MeasurementArray(half, herr) if herr is not None else q.MeasurementArray(half)) * 2
         return q.fit(xa, ya, model, **kw)
     if form == "xyds":
         return q.fit(q.XYDataSet(x, y, **ek), model, **kw)
@@ -284,6 +430,18 @@ def observe(q, case, drop_xerr=False, full=True, use_range=True):
             out["cov"], out["regcorr"] = cov, corr
             if full:
                 out["str"] = str(r)
+                # the same text with numpy asked for 17 significant digits instead of 3 (the result
+                # object offers the reported matrix through str() only)
+                orig = np.array_str
+                try:
+                    np.array_str = lambda a, max_line_width=None, precision=None, \
+                        suppress_small=None: orig(a, max_line_width=10 ** 6, precision=17,
+                                                  suppress_small=False)
+                    out["str_hi"] = str(r)
+                except Exception:  # noqa: BLE001
+                    out["str_hi"] = None
+                finally:
+                    np.array_str = orig
                 out["chi2"] = float(r.chi_squared)
                 out["ndof"] = int(r.ndof)
                 out["res"] = [[float(v.value), float(v.error)] for v in r.residuals]
